@@ -6,6 +6,7 @@ import (
 	"errors"
 	"fmt"
 	"io"
+	"strings"
 	"time"
 
 	"github.com/filecoin-project/go-f3/gpbft"
@@ -333,6 +334,10 @@ func (m *Manifest) Validate() error {
 		return fmt.Errorf("invalid manifest: manifest is nil")
 	case m.NetworkName == "":
 		return fmt.Errorf("invalid manifest: network name must not be empty")
+	case strings.Contains(string(m.NetworkName), ":"):
+		// ':' separates the network name from the following fields in the payload and VRF
+		// signing inputs; a name containing it makes those encodings ambiguous.
+		return fmt.Errorf("invalid manifest: network name must not contain ':'")
 	case m.BootstrapEpoch < m.EC.Finality:
 		return fmt.Errorf("invalid manifest: bootstrap epoch %d before finality %d",
 			m.BootstrapEpoch, m.EC.Finality)
